@@ -354,6 +354,20 @@ func (env *SpecEnv) ident(name string, hint types.Type) Value {
 	case "MaxInt64":
 		return env.intLit(new(big.Int).SetInt64(1<<63-1), types.Typ[types.Int64])
 	}
+	// iteration ghosts of map range loops: seen (current loop), seen1, seen2, ... (by loop number)
+	if env.fr != nil && strings.HasPrefix(name, "seen") {
+		n := env.fr.curLoop
+		if len(name) > 4 {
+			fmt.Sscanf(name[4:], "%d", &n)
+		}
+		if it, ok := env.fr.loopSeen[n]; ok {
+			cur, ok := env.st.ghost[it.seen]
+			if !ok {
+				cur = env.ex.initialComp(it.seen)
+			}
+			return Term{S: cur, T: &SetType{Elem: it.mc.kt}}
+		}
+	}
 	// local variable of the frame
 	if env.fr != nil && !env.inOld {
 		if a := env.fr.localByName(name); a != nil {
